@@ -34,13 +34,20 @@ bool hasRepeatOrReversal(const Path64& p, bool closed) {
   return false;
 }
 
+// Route to the utility (per case): 0 the Path64 function, 1 the PathD overload on the same (integer-valued) input, 2 the
+// Paths64 wrapper where there is one.  The same clauses are applied to whatever the route returns.
+PathD toPathD(const Path64& p) { PathD r; for (auto& q : p) r.emplace_back((double)q.x, (double)q.y); return r; }
+Path64 fromPathD(const PathD& p) { Path64 r; for (auto& q : p) r.emplace_back((int64_t)std::llround(q.x), (int64_t)std::llround(q.y)); return r; }
+int routeOf(const Case& c) { int r = (int)c.I("droute", 0); if (r) ST.count("route_" + std::string(r == 1 ? "PathD_overload" : "Paths_wrapper")); return r; }
+
 Verdict judgeTrim(const Case& c) {
   Verdict v;
   if (c.P("path").empty()) { v.discard = true; return v; }
   const Path64& p = c.P("path")[0];
   bool open = c.I("open") != 0;
   if (O::maxAbs(c.P("path")) > (int64_t(1) << 40)) { v.discard = true; return v; }
-  Path64 r = TrimCollinear(p, open);
+  int route = routeOf(c);
+  Path64 r = route == 1 ? fromPathD(TrimCollinear(toPathD(p), (int)c.I("dprec", 2), open)) : TrimCollinear(p, open);
   v.evals = 1;
   std::string at = std::string(open ? " [open] " : " [closed] ") + pathStr(p) + " -> " + pathStr(r);
   if (!isSubsequence(r, p)) { v.fail("TrimCollinear result is not a subsequence of the input" + at); return v; }
@@ -80,7 +87,8 @@ Verdict judgeSimplify(const Case& c) {
   bool closed = c.I("open") == 0;
   double eps = c.D("eps");
   if (eps < 0 || O::maxAbs(c.P("path")) > (int64_t(1) << 30)) { v.discard = true; return v; }
-  Path64 r = SimplifyPath(p, eps, closed);
+  int route = routeOf(c);
+  Path64 r = route == 1 ? fromPathD(SimplifyPath(toPathD(p), eps, closed)) : route == 2 ? SimplifyPaths(Paths64{p}, eps, closed)[0] : SimplifyPath(p, eps, closed);
   v.evals = 1;
   char eb[40];
   snprintf(eb, sizeof eb, " eps=%g", eps);
@@ -113,7 +121,8 @@ Verdict judgeRdp(const Case& c) {
   const Path64& p = c.P("path")[0];
   double eps = c.D("eps");
   if (eps < 0 || O::maxAbs(c.P("path")) > (int64_t(1) << 30)) { v.discard = true; return v; }
-  Path64 r = RamerDouglasPeucker(p, eps);
+  int route = routeOf(c);
+  Path64 r = route == 1 ? fromPathD(RamerDouglasPeucker(toPathD(p), eps)) : route == 2 ? RamerDouglasPeucker(Paths64{p}, eps)[0] : RamerDouglasPeucker(p, eps);
   v.evals = 1;
   char eb[40];
   snprintf(eb, sizeof eb, " eps=%g", eps);
@@ -290,6 +299,8 @@ Case genPath() {
   }
   c.p["path"] = {p};
   c.i["open"] = G::range(0, 1);
+  c.i["droute"] = G::chance(60) ? 0 : G::range(1, 2);
+  c.i["dprec"] = G::range(0, 3);
   double feat = (double)std::max<int64_t>(M, 1);
   int ek = (int)G::range(0, 3);
   c.d["eps"] = ek == 0 ? 0.0 : ek == 1 ? G::real(0, 2) : ek == 2 ? G::real(0, feat) : feat * 1000;
